@@ -122,10 +122,16 @@ def handle_search(job):
         except JobTimeout:
             out.append({'id': case['id'], 'timeout': True})
             continue
-        # the further forms an in-scope extension adds to a word are forms of the word
-        for w in o['words']:
-            extra = [f for f in (case.get('extforms') or {}).get(w[0], []) if f not in w[4]]
-            w[4] = list(w[4]) + extra
+        # the further forms an in-scope extension adds to a word are forms of the word; with the
+        # extension installed but not selected, the word's forms are what forms() reports for it
+        if case.get('extforms') and 'X' not in case['scope']:
+            for w in o['words']:
+                if w[0] in case['extforms'] and w[1] in case['scope']:
+                    w[4] = [str(f) for f in wbase.word(w[0]).forms()][1:]
+        else:
+            for w in o['words']:
+                extra = [f for f in (case.get('extforms') or {}).get(w[0], []) if f not in w[4]]
+                w[4] = list(w[4]) + extra
         for w in o['words']:
             strings.add(w[3])
             strings.update(w[4])
